@@ -109,8 +109,8 @@ MIN_COUNTERS = {
               "factory_classes_covered": 60, "grammar_op_sequences": 140,
               "grammar_op_sequences_with_cached_read_then_required_edit": 60, "grammar_ops_applied": 400,
               "grammar_validation_verdicts_compared": 2000},
-    "thorough": {"round_trips": 1350, "round_trips_process": 90, "restored_under_a_different_hash_seed": 100,
-                 "restored_under_the_same_hash_seed": 25, "hash_sensitive_entries_restored_under_a_different_hash_seed": 50, "static_views_compared": 1350,
+    "thorough": {"round_trips": 1350, "round_trips_process": 200, "restored_under_a_different_hash_seed": 170,
+                 "restored_under_the_same_hash_seed": 39, "hash_sensitive_entries_restored_under_a_different_hash_seed": 70, "static_views_compared": 1350,
                  "behaviour_comparisons": 6600, "jacobian_comparisons": 3000, "cached_input_replays": 600,
                  "identity_walks": 1250, "independence_checks": 8500, "counter_checks": 2500,
                  "counter_checks_with_nonzero_counters": 750, "purity_checks": 1250, "moment_failed_cases": 40,
